@@ -388,6 +388,17 @@ class _Sim(object):
                         seen[nm] = el.status.name
                 ev["did"].append(["read_status", seen])
                 self.fire("status_read_mid_run")
+                # ... and at the rest of the model the way reporting user code does
+                try:
+                    feat = getattr(context, "feature", None) if "feature" in context else None
+                except Exception:
+                    feat = None
+                if feat is not None:
+                    _ = feat.duration
+                    for sc in feat.walk_scenarios(with_outlines=True):
+                        _ = (sc.status, sc.duration, sc.effective_tags)
+                        for st in getattr(sc, "all_steps", []):
+                            _ = st.status
             elif a == "step_table":
                 self.do_step_table_mutation(ev, context, act)
             else:
